@@ -172,7 +172,10 @@ def discharge(path, claim, timeout_ms=20000, portfolio=False, range_assumptions=
       3. on unknown: cross-multiplied, division-free polynomial identity.
     """
     from . import sym as _sym
-    allc = [(c, _sym.term_vars(c)) for g in (path.assumptions, path.axioms, path.pc, list(range_assumptions)) for c in g]
+    if getattr(claim, 'hyps', None) is not None:
+        allc = [(c, _sym.term_vars(c)) for c in claim.hyps]
+    else:
+        allc = [(c, _sym.term_vars(c)) for g in (path.assumptions, path.axioms, path.pc, list(range_assumptions)) for c in g]
     goal = claim.t if claim.kind == 'bool' else (claim.a != claim.b)
     base = (_sym.cone(allc, goal),)     # cone of influence of the claim (the rest is satisfiable: vacuity check)
     t0 = time.time()
